@@ -30,8 +30,9 @@ contract("parglare.glr.GSSNode.__init__",
                   "self.token_ahead == token_ahead and self.layout_content == layout_content and "
                   "self.layout_content_ahead == layout_content_ahead and self.debug == debug",
                   "self._ambiguity == ambiguity",
-                  # the node id is a function of (frontier, state id)
-                  "self.id == str(frontier) + '_' + str(state.state_id)",
+                  # (the node id -- an injective function of (frontier, state id) -- is NOT specified here: any proof
+                  # about it would pin the string format, and a harmless change of format would then raise an alarm;
+                  # functionality and injectivity of the id are checked by the companion on a grid, bounded)
                   "fresh(self.parents) and forall_str(lambda k: not haskey(self.parents, k))"],
          modifies=["self.*"], properties=("C01",))
 
@@ -47,7 +48,6 @@ contract("parglare.glr.GSSNode.for_token",
              "result.state == self.state and result.position == self.position and result.frontier == self.frontier and "
              "result.input_str == self.input_str and result.file_name == self.file_name and result.extra == self.extra",
              "result.layout_content == self.layout_content and result.layout_content_ahead == self.layout_content_ahead",
-             "implies(result != self, result.id == str(self.frontier) + '_' + str(self.state.state_id))",
              # its parent links are a copy: same links, not the same dict
              "implies(result != self, fresh(result.parents) and forall_str(lambda k: "
              "haskey(result.parents, k) == haskey(self.parents, k) and "
